@@ -317,6 +317,16 @@ def cases(tier, seed):
             # the file's record type is fixed by the first record offered (its schema is created then, accepted or not)
             must = [i for i, s in enumerate(seq) if s in bad or _type_of(s) != _type_of(seq[0])]
             yield {"kind": "history", "label": "history", "shape": list(seq), "records": [kinds[s] for s in seq], "must_refuse": must}
+    # the same for a 32-bit column: a value outside the schema's range is refused as the first, the second and the third record of a file
+    U_OK = rs("a/u32", [["uint32", "n"], ["string", "s"]], ["5", "'ok'"])
+    U_OK2 = rs("a/u32", [["uint32", "n"], ["string", "s"]], ["2**31-1", "'edge'"])
+    U_BAD = rs("a/u32", [["uint32", "n"], ["string", "s"]], ["2**31", "'over'"])
+    U_BAD2 = rs("a/u32", [["uint32", "n"], ["string", "s"]], ["2**32-1", "'max'"])
+    ukinds = {"U_OK": U_OK, "U_OK2": U_OK2, "U_BAD": U_BAD, "U_BAD2": U_BAD2}
+    for k in range(1, 4):
+        for seq in itertools.product(ukinds, repeat=k):
+            if any("BAD" in x for x in seq) and (k < 3 or seq[0] in ("U_OK", "U_BAD")):
+                yield {"kind": "history", "label": "history-u32", "shape": list(seq), "records": [ukinds[x] for x in seq], "must_refuse": [i for i, x in enumerate(seq) if "BAD" in x]}
     # out-of-range values for the schema
     for t, v in (("uint32", "2**31"), ("uint32", "2**32-1"), ("varint", "2**63"), ("varint", "-2**63-1"), ("filesize", "2**64"), ("float", "3.5e38"),
                  ("float", "1.7976931348623157e308"), ("string", "'\\udc80'"), ("uri", "'\\udc80'")):
